@@ -108,9 +108,8 @@ func runC09(c *core.Ctx) {
 	})
 	if f := fn(c, "C09-R1", mvf+"validateP2PMessage"); f != nil {
 		for _, s := range callsIn(f, mvM+"validateSSVMessage") {
-			a := c.E.Analyze(s.Fn)
-			v := a.D.D(s.Instr.Common().Args[3]).String()
-			facts := a.FactsAt(s.Instr)
+			v := s.Arg(c, 3).String()
+			facts := s.Facts(c)
 			_, forkActive := facts.Has("lt(p0.netCfg.PermissionlessActivationEpoch, *)")
 			c.Decide(strings.Contains(v, "closure:"+mvM+"validateP2PMessage$1"), "C09-R1", "validateP2PMessage|verifier handed to SSV validation", c.P.Pos(s.Instr.Pos()), v, "the signature verifier built from the envelope is not the one passed on: "+v)
 			_ = forkActive
@@ -275,12 +274,10 @@ func runC09(c *core.Ctx) {
 		if len(vs) != 1 || len(dn) != 1 {
 			c.Undischarged("C09-R4", "validateP2PMessage|verify/decode sites", fmt.Sprintf("expected one verifySignature and one DecodeNetworkMsg call, found %d and %d", len(vs), len(dn)))
 		} else {
-			va := c.E.Analyze(vs[0].Fn)
-			da := c.E.Analyze(dn[0].Fn)
-			verified := va.D.D(vs[0].Instr.Common().Args[1]).String()
-			decoded := da.D.D(dn[0].Instr.Common().Args[0]).String()
+			verified := vs[0].Arg(c, 1).String()
+			decoded := dn[0].Arg(c, 0).String()
 			c.Decide(verified == decoded, "C09-R4", "validateP2PMessage|verified bytes == decoded bytes", c.P.Pos(vs[0].Instr.Pos()), verified, "the signature is verified over "+verified+" but the message is decoded from "+decoded)
-			call := va.D.Call(vs[0].Instr).String()
+			call := vs[0].Call(c).String()
 			c.Decide(ens.Glob(mvM+"verifySignature(p0, *, ssv/network/commons.DecodeSignedSSVMessage(*)#1, ssv/network/commons.DecodeSignedSSVMessage(*)#2)", call), "C09-R4", "validateP2PMessage|operator id and signature from the same envelope", c.P.Pos(vs[0].Instr.Pos()), clip(call), "verifySignature is not given the envelope's own operator id and signature: "+clip(call))
 		}
 	}
